@@ -78,8 +78,8 @@ CONFIGS = {
     # the emitter's 128 (anchor + tag + raw scalar) and the reader's 1024 (characters as written) - x character class
     # (ASCII, BMP non-ASCII, astral, escaped control, quote) x requested style x allow_unicode, as root / item / block key / flow key
     'longkeys':  dict(BASE, Unicode=S(False, True), LongClasses=S('a', 'v', 'U', 'x', 'q'), LongStyles=S('P', 'S', 'D'),
-                      LongLens=S(102, 103, 120, 122, 123, 127, 128, 130, 1000, 1013, 1014, 1018, 1019, 1022, 1023, 1024, 1030),
-                      ScalarKinds=S(), CollKinds=S('BS', 'BM', 'FM'), MaxEvents=3, MaxDepth=1),
+                      LongLens=S(102, 103, 122, 123, 128, 1018, 1019, 1023, 1024),
+                      ScalarKinds=S(), CollKinds=S('BM', 'FM'), MaxEvents=3, MaxDepth=1),
     'longkeys+': dict(BASE, Unicode=S(False, True), LongClasses=S('a', 'v', 'U', 'x', 'q'), LongStyles=S('P', 'S', 'D'),
                       LongLens=S(*(list(range(100, 105)) + list(range(120, 131)) + list(range(168, 173)) + list(range(253, 258)) + list(range(1000, 1031)))),
                       ScalarKinds=S(), CollKinds=S('BS', 'BM', 'FS', 'FM'), ExplicitTags='TRUE', MaxEvents=3, MaxDepth=1),
@@ -254,17 +254,26 @@ def reject_class(text, e):
     lines = split_lines(text)
     if m.line >= len(lines):
         return 'other: ' + problem[:60]
-    prefix = lines[m.line][0][:m.column]
-    key = re.sub(r'^[\s\-?\[{,]*((&[\w-]+|![^\s]*)\s+)*', '', prefix)
-    if len(key) <= 1024:
-        return 'other: ' + problem[:60]
-    if key.startswith('"'):
+    prefix = lines[m.line][0][:m.column].rstrip(' ')
+    # the scalar that ends where the ':' stands
+    if prefix.endswith('"'):
+        i = len(prefix) - 2
+        while i >= 0 and not (prefix[i] == '"' and (len(prefix[:i]) - len(prefix[:i].rstrip('\\'))) % 2 == 0):
+            i -= 1
+        key = prefix[max(i, 0):]
         toks = canon_lex(key)
         raw = len(unhex(toks[0][1])) if toks and toks[0][0] == 'SCALAR' else len(key)
-    elif key.startswith("'"):
-        raw = len(key.rstrip()[1:-1].replace("''", "'"))
+    elif prefix.endswith("'"):
+        body = prefix[:-1].replace("''", '\0\0')
+        i = body.rfind("'")
+        key = prefix[max(i, 0):]
+        raw = len(key[1:-1].replace("''", "'"))
     else:
-        raw = len(key.rstrip())
+        i = max(prefix.rfind(x) for x in (', ', '{', '[', '? ', '- '))
+        key = prefix[i + 1:].lstrip(' ')
+        raw = len(key)
+    if len(key) <= 1000:
+        return 'other: ' + problem[:60]
     return 'simple key of %s raw characters is longer than 1024 written characters' % ('< 128' if raw < 128 else '>= 128')
 
 
